@@ -150,6 +150,11 @@ impl Scaled {
             ));
         }
         let (value_str, unit_str) = s.split_at(s.len() - 2);
+        // the sign applies to the whole number, not only to its integer part
+        let (negative, value_str) = match value_str.strip_prefix('-') {
+            Some(rest) => (true, rest),
+            None => (false, value_str),
+        };
         let unit = ScaledUnit::parse(unit_str)
             .ok_or_else(|| format!("invalid unit {unit_str:?} in dimension {s:?}"))?;
         let (int_str, frac_str) = match value_str.find('.') {
@@ -157,8 +162,10 @@ impl Scaled {
             None => (value_str, ""),
         };
         let integer_part: i32 = int_str
-            .parse()
-            .map_err(|_| format!("invalid number {int_str:?} in dimension {s:?}"))?;
+            .parse::<u32>()
+            .ok()
+            .and_then(|i| i32::try_from(i).ok())
+            .ok_or_else(|| format!("invalid number {int_str:?} in dimension {s:?}"))?;
         let frac_digits: Vec<u8> = frac_str.chars().map(|c| c as u8 - b'0').collect();
         if frac_digits.iter().any(|&d| d > 9) {
             return Err(format!(
@@ -166,8 +173,9 @@ impl Scaled {
             ));
         }
         let fractional_part = Scaled::from_decimal_digits(&frac_digits);
-        Scaled::new(integer_part, fractional_part, unit)
-            .map_err(|_| format!("dimension {s:?} is out of range"))
+        let magnitude = Scaled::new(integer_part, fractional_part, unit)
+            .map_err(|_| format!("dimension {s:?} is out of range"))?;
+        Ok(if negative { -magnitude } else { magnitude })
     }
 
     /// Parses a scaled number from the unitless decimal format printed by TeX.
